@@ -3,7 +3,7 @@
    of Elements / Objects.  All functions mentioned are the generated ones (GenIds) or the
    dispatchers / loop models of Model.v over them. *)
 From Coq Require Import ZArith List String Ascii Bool Lia.
-From Verif Require Import Base.Int64 C10.Model C10.Proofs.
+From Verif Require Import Base.Int64 C10.Model C10.GenSem C10.Proofs.
 From VerifGen Require Import GenIds.
 Import ListNotations.
 Open Scope Z_scope.
@@ -13,18 +13,24 @@ Open Scope Z_scope.
 (* On the packed id of ANY of the seven kinds (so also on an object id of a changeset, note, ...
    reinterpreted as a feature id), the conversion to element kind K returns the reference exactly
    when the id is of kind K, and panics otherwise. *)
+Lemma ref_spec_pack k r v : in_range r v -> ref_spec (pack k r v) = r.
+Proof. intros H. rewrite <- ObjectID_Ref_sem. exact (ref_pack k r v H). Qed.
+
+Lemma conv_spec_pack mask k r v :
+  in_range r v ->
+  conv_spec mask (pack k r v) = if kcode k * two56 =? mask then Some r else None.
+Proof.
+  intros H. unfold conv_spec. rewrite (type_bits_pack k r v H), (ref_spec_pack k r v H). reflexivity.
+Qed.
+
 Lemma conv_feature_pack K k r v :
   is_element K = true -> in_range r v ->
   conv_feature K (pack k r v) = if kind_eqb K k then Some r else None.
 Proof.
   intros HK H.
-  (* works for a guard written on the masked integer or through Type() *)
   destruct K; try discriminate HK; cbn [conv_feature];
-    unfold FeatureID_NodeID, FeatureID_WayID, FeatureID_RelationID;
-    repeat first [rewrite (type_bits_pack k r v H) | progress unfold FeatureID_Type, ElementID_Type, ObjectID_Type];
-    change (FeatureID_Ref (pack k r v)) with (ObjectID_Ref (pack k r v));
-    rewrite ?(ref_pack k r v H);
-    destruct k; reflexivity.
+    rewrite ?FeatureID_NodeID_sem, ?FeatureID_WayID_sem, ?FeatureID_RelationID_sem;
+    rewrite (conv_spec_pack _ k r v H); destruct k; reflexivity.
 Qed.
 
 Lemma conv_element_pack K k r v :
@@ -33,11 +39,8 @@ Lemma conv_element_pack K k r v :
 Proof.
   intros HK H.
   destruct K; try discriminate HK; cbn [conv_element];
-    unfold ElementID_NodeID, ElementID_WayID, ElementID_RelationID;
-    repeat first [rewrite (type_bits_pack k r v H) | progress unfold FeatureID_Type, ElementID_Type, ObjectID_Type];
-    change (ElementID_Ref (pack k r v)) with (ObjectID_Ref (pack k r v));
-    rewrite ?(ref_pack k r v H);
-    destruct k; reflexivity.
+    rewrite ?ElementID_NodeID_sem, ?ElementID_WayID_sem, ?ElementID_RelationID_sem;
+    rewrite (conv_spec_pack _ k r v H); destruct k; reflexivity.
 Qed.
 
 Lemma conv_feature_id K k r :
@@ -218,7 +221,7 @@ Lemma counts_step_feature_pack acc k r v :
   in_range r v -> counts_step_feature acc (pack k r v) = add3 acc (unit_count k).
 Proof.
   intros H. unfold counts_step_feature. destruct acc as [[n w] x].
-  unfold FeatureID_Type. rewrite (type_bits_pack k r v H).
+  rewrite FeatureID_Type_sem. unfold feature_type_spec. rewrite (type_bits_pack k r v H).
   destruct k; cbn [kcode unit_count add3];
     repeat match goal with |- context [?a =? ?b] => change (a =? b) with false || change (a =? b) with true end;
     cbv iota zeta;
